@@ -21,6 +21,8 @@ Families (field fam)
   litop   : every postfix operator, comparison and call applied directly to a literal operand (C01, C03, C07)
   mapnull / nested / twins / twoslice / cmpchain / absent / litpost / notgroup / selfnest / keyorder / msidx / foldlit / digitkeys :
             round 6 (see the comments at each block below)
+  bigsigns: negative integers against integers above 2^63 - 1, numbers below -2^63 and beyond 2^64 under floor / ceil / abs and the
+            sorting functions (round 9; C01, C02, C10)
   alias   : the same document node reached twice (both operands of a comparison, two arguments of a call) (C01, C10, C06)
 """
 import itertools, json, os, sys
@@ -509,6 +511,32 @@ zdoc = {"foo": list(range(12))}
 for t in ["foo[01]", "foo[010]", "foo[00]", "foo[01:03]", "foo[1:03]", "foo[:011]", "foo[::02]", "foo[00:]", "foo[009::-3]", "foo[*] | [02:5]", "foo[007]", "foo[0011]", "foo[-01]", "foo[-007:]",
           "foo[0:010:02]", "foo[0000000001]", "foo[01][0]", "[foo[01], foo[1]]", "foo[01] == foo[1]", "foo[?@ > `3`][01]", "foo[:-01]", "foo[-00]", "foo[1:][00]"]:
     add("zeropad", t, zdoc)
+# ================================================================ round 9 families
+# ---------------------------------------------------------------- bigsigns
+# integers on both sides of the signed 64-bit range next to small negative numbers: a negative integer against an integer above 2^63 - 1
+# (one fits i64 only, the other u64 only), numbers below -2^63 and beyond 2^64 under the rounding functions, in both operand orders,
+# from the document and as literals: order and rounding are about the VALUE, never about the integer type a number happens to fit
+bsd = {"n": -1, "m": -7, "z": 0, "p": 5, "f": -1.5, "b": 9300000000000000000, "c": 18000000000000000000, "nb": -9300000000000000000,
+       "nc": -18000000000000000000, "nd": -30000000000000000000000000, "pd": 30000000000000000000000000, "i": 9100000000000000000,
+       "ni": -9100000000000000000}
+bsd["all"] = [bsd[k] for k in ["n", "b", "m", "c", "z", "nb", "p", "nc", "f", "nd", "pd", "i", "ni"]]
+bsd["recs"] = [{"k": x, "i": j} for j, x in enumerate(bsd["all"])]
+for x, y in [("n", "b"), ("m", "c"), ("n", "c"), ("f", "b"), ("z", "b"), ("p", "b"), ("nb", "b"), ("nc", "c"), ("n", "i"), ("ni", "b"), ("ni", "i"), ("nb", "n"), ("nd", "n"), ("pd", "c"), ("i", "b"), ("b", "c")]:
+    for op in ["<", "<=", ">", ">=", "==", "!="]:
+        add("bigsigns", "%s %s %s" % (x, op, y), bsd)
+        add("bigsigns", "%s %s %s" % (y, op, x), bsd)
+for lit_a, lit_b in [("-1", "9300000000000000000"), ("-7", "18000000000000000000"), ("-9100000000000000000", "9300000000000000000"), ("0", "9300000000000000000"), ("-1", "9100000000000000000")]:
+    for op in ["<", "<=", ">", ">=", "==", "!="]:
+        add("bigsigns", "`%s` %s `%s`" % (lit_a, op, lit_b), bsd)
+        add("bigsigns", "`%s` %s `%s`" % (lit_b, op, lit_a), bsd)
+        add("bigsigns", "n %s `%s`" % (op, lit_b), bsd)
+for t in ["sort(all)", "max(all)", "min(all)", "reverse(sort(all))", "sort_by(recs, &k)[*].i", "max_by(recs, &k).i", "min_by(recs, &k).i", "all[?@ < `0`]", "all[?@ > b]", "all[?@ < b]", "all[?@ >= n]",
+          "recs[?k < `9300000000000000000`].i", "recs[?k > `-1`].i", "map(&floor(@), all)", "map(&ceil(@), all)", "map(&abs(@), all)", "floor(nb)", "ceil(nb)", "floor(nc)", "ceil(nc)", "floor(nd)",
+          "ceil(nd)", "floor(pd)", "ceil(pd)", "floor(c)", "ceil(c)", "floor(b)", "ceil(b)", "abs(nb)", "abs(nd)", "abs(nc) == c", "floor(nd) == nd", "ceil(nd) == nd", "floor(nb) == nb", "ceil(nc) < n",
+          "floor(f)", "ceil(f)", "floor(`-1e19`)", "ceil(`-1e19`)", "floor(`1e19`)", "ceil(`-3e25`)", "floor(`-18000000000000000000`)", "[floor(nb), ceil(nb)] == [nb, nb]", "map(&ceil(@), [f, nd])",
+          "sort_by(recs, &floor(k))[*].i", "max_by(recs, &ceil(k)).i", "min_by(recs, &floor(k)).i", "sort_by(recs, &abs(k))[*].i", "to_number(to_string(nb)) == nb", "not_null(floor(nd), n)",
+          "contains(all, b)", "contains(all, nb)", "sort([n, b])", "sort([b, n])", "max([n, b])", "min([b, n])", "min([n, i, b])", "max([ni, n, b])"]:
+    add("bigsigns", t, bsd)
 # ================================================================ round 8 families
 # ---------------------------------------------------------------- strclass
 # every string function on strings holding characters that text tools treat specially: CR LF (in both orders), combining marks (first, middle,
